@@ -1169,7 +1169,7 @@ typename DynamicArrayT<T, NC_>::Index
 DynamicArrayT<T, NC_>::emplace(TArgs&&... args) noexcept {
 	FFSM2_ASSERT(_count < CAPACITY);
 
-	new (&_items[_count]) Item{forward<TArgs>(args)...};
+	new (&_items[_count]) Item{::ffsm2::forward<TArgs>(args)...};
 
 	return _count++;
 }
@@ -1207,7 +1207,7 @@ template <typename T, Long NC_>
 FFSM2_CONSTEXPR(14)
 DynamicArrayT<T, NC_>&
 DynamicArrayT<T, NC_>::operator += (Item&& item) noexcept {
-	emplace(move(item));
+	emplace(::ffsm2::move(item));
 
 	return *this;
 }
@@ -1878,7 +1878,7 @@ TaskListT<TP_, NC_>::emplace(TA_&&... args) noexcept {
 			_vacantTail = INVALID;
 		}
 
-		new (&item) Item{forward<TA_>(args)...};
+		new (&item) Item{::ffsm2::forward<TA_>(args)...};
 		++_count;
 
 		FFSM2_IF_ASSERT(verifyStructure());
@@ -3256,7 +3256,7 @@ template <typename TArgs>
 FFSM2_CONSTEXPR(11)
 CoreT<TArgs>::CoreT(PureContext&& context_
 				  FFSM2_IF_LOG_INTERFACE(, Logger* const logger_)) noexcept
-	: context{move(context_)}
+	: context{::ffsm2::move(context_)}
 	FFSM2_IF_LOG_INTERFACE(, logger{logger_})
 {}
 
@@ -3274,12 +3274,12 @@ CoreT<TArgs>::CoreT(const CoreT& other) noexcept
 template <typename TArgs>
 FFSM2_CONSTEXPR(11)
 CoreT<TArgs>::CoreT(CoreT&& other) noexcept
-	: FFSM2_IF_TRANSITION_HISTORY(previousTransition{move(other.previousTransition)},)
-	  context {forward<Context>(other.context)}
-	, registry{move(other.registry)}
-	, request {move(other.request )}
-	FFSM2_IF_PLANS			   (, planData			 {move(other.planData			)})
-	FFSM2_IF_LOG_INTERFACE	   (, logger			 {move(other.logger				)})
+	: FFSM2_IF_TRANSITION_HISTORY(previousTransition{::ffsm2::move(other.previousTransition)},)
+	  context {::ffsm2::forward<Context>(other.context)}
+	, registry{::ffsm2::move(other.registry)}
+	, request {::ffsm2::move(other.request )}
+	FFSM2_IF_PLANS			   (, planData			 {::ffsm2::move(other.planData			)})
+	FFSM2_IF_LOG_INTERFACE	   (, logger			 {::ffsm2::move(other.logger				)})
 {}
 
 }
@@ -6933,7 +6933,7 @@ template <typename TG_, typename TA_>
 FFSM2_CONSTEXPR(11)
 R_<TG_, TA_>::R_(PureContext&& context
 			   FFSM2_IF_LOG_INTERFACE(, Logger* const logger)) noexcept
-	: _core{move(context)
+	: _core{::ffsm2::move(context)
 		  FFSM2_IF_LOG_INTERFACE(, logger)}
 {}
 
@@ -7584,7 +7584,7 @@ template <FeatureTag NFT_, typename TC_, Short NSL_ FFSM2_IF_PLANS(, Long NTC_),
 FFSM2_CONSTEXPR(14)
 RV_<G_<NFT_, TC_, Automatic, NSL_ FFSM2_IF_PLANS(, NTC_), TP_>, TA_>::RV_(PureContext&& context
 																		FFSM2_IF_LOG_INTERFACE(, Logger* const logger)) noexcept
-	: Base{move(context)
+	: Base{::ffsm2::move(context)
 	FFSM2_IF_LOG_INTERFACE(, logger)}
 {
 	initialEnter();
@@ -7599,7 +7599,7 @@ RV_<G_<NFT_, TC_, Automatic, NSL_ FFSM2_IF_PLANS(, NTC_), TP_>, TA_>::RV_(const 
 template <FeatureTag NFT_, typename TC_, Short NSL_ FFSM2_IF_PLANS(, Long NTC_), typename TP_, typename TA_>
 FFSM2_CONSTEXPR(14)
 RV_<G_<NFT_, TC_, Automatic, NSL_ FFSM2_IF_PLANS(, NTC_), TP_>, TA_>::RV_(RV_&& other) noexcept
-	: Base{move(other)}
+	: Base{::ffsm2::move(other)}
 {}
 
 template <FeatureTag NFT_, typename TC_, Short NSL_ FFSM2_IF_PLANS(, Long NTC_), typename TP_, typename TA_>
@@ -8216,7 +8216,7 @@ template <FeatureTag NFT_, typename TC_, typename TV_, Short NSL_ FFSM2_IF_PLANS
 FFSM2_CONSTEXPR(11)
 InstanceT<G_<NFT_, TC_, TV_, NSL_ FFSM2_IF_PLANS(, NTC_), TP_>, TA_>::InstanceT(PureContext&& context
 																			  FFSM2_IF_LOG_INTERFACE(, Logger* const logger)) noexcept
-	: Base{move(context)
+	: Base{::ffsm2::move(context)
 	FFSM2_IF_LOG_INTERFACE(, logger)}
 {}
 
